@@ -30,6 +30,10 @@ func init() {
 
 func runC20(w *World, r *Report) {
 	hrFailsafeReactions(w, r, "R7")
+	hrSnapshotsAlwaysWritten(w, r, "R7")
+	hrNoSessionSentinel(w, r, "R2")
+	hrRevertUnmanageFlags(w, r, "R7")
+	hrStatefulReceivers(w, r, "R7", pkgConfig, "TxnPoliciesAccessor")
 	run := w.Fn(pkgFailsafe, "StateChangeWatcher.run")
 	if run == nil {
 		r.Undec("R1", "run", token.NoPos, "StateChangeWatcher.run not found")
